@@ -257,9 +257,11 @@ def run(ctx):
         for f in sorted(prog.fns.values(), key=lambda x: x.path):
             if f.crate != "minijinja" or f.kind == "closure":
                 continue
-            wes = f.calls_to(WES)
-            if not wes:
+            if not f.calls_to(WES):
                 continue
+            from .pairs import host_view
+            f = host_view(prog, f)      # the frame may be pushed by a helper (`enter_parent_block(state, name)?`)
+            wes = f.calls_to(WES)
             swaps = [c for c in f.calls() if c.name == "core::mem::replace" and any(
                 o.kind == "arg" and o.proj and o.proj[-1] == "ctx" for o in flow.origins(f, c.args[0]))]
             if swaps:
@@ -426,7 +428,9 @@ def check_vm_pairs(ctx, prog, tag):
     for fpath, op, cl, ok_on_err in pairs:
         if not prog.has_fn(fpath):
             continue
-        f = prog.fn(fpath)
+        from .pairs import host_view, paths_balance
+        f0 = prog.fn(fpath)
+        f = host_view(prog, f0)
         opens = f.calls_to(op)
         closes = [c.bb for c in f.calls_to(cl)]
         if op.endswith("::incr_depth"):
@@ -476,6 +480,11 @@ def check_vm_pairs(ctx, prog, tag):
                         if cfg.paths_must_pass(f, s, set(closes) | errs, rets, removed_edges=infeasible):
                             continue
                     bad = True
+            if bad:
+                # the paths may be told apart by the value of a Result kept in a variable: walk them with that value known
+                _, late = paths_balance(prog, f0, op, cl, allow_open_on_err=ok_on_err)
+                if not late:
+                    bad = False
             ctx.ob("C05.B3.vm-opener-has-closer-on-every-path", "%s%s|%s/%s" % (tag, fpath.split("::")[-1], op.split("::")[-1], cl.split("::")[-1]),
                    not bad, "a path from %s to a return skips %s" % (op.split("::")[-1], cl.split("::")[-1]), f.where(o.bb))
     ctx.floor("C05.B3 opener sites" + tag, n, 0 if tag == "[MIN]" else 3)
